@@ -45,9 +45,15 @@ def confirm_object(C, model):
     """object-typed parent: every selected key of the payload must survive the round trip"""
     schema, query, payload, keys = synth.object_texts(model)
     rp = dict(schema=schema, query=query, model=model)
-    err = C.build(schema, query, 'Q', 'q')
+    attrs = f'deprecated = "{model["strategy"].lower()}", ' if model.get('strategy') else ''
+    err = C.build(schema, query, 'Q', 'q', attrs=attrs)
     if err:
-        return None, 'consumer crate does not compile: ' + err[-300:].replace('\n', ' | '), rp
+        import re as _re
+        first = _re.search(r'^error[^\n]*(\n[^\n]*){0,4}', err, _re.M)
+        first = (first.group(0) if first else err[-300:]).replace('\n', ' | ')
+        if attrs and not C.build(schema, query, 'Q', 'q'):
+            return False, f'`{query.splitlines()[0]}`: the module generated with {attrs.strip(", ")} does not compile although the same operation compiles with the default strategy: {first}', rp
+        return None, 'consumer crate does not compile: ' + first, rp
     (st, val), = C.run('response', [payload])
     if st != 'ok':
         return False, f'payload {json.dumps(payload)} for `{query.splitlines()[0]}` is rejected: {val}', rp
